@@ -268,7 +268,8 @@ def main():
     if check.args.replay:
         with open(check.args.replay) as f:
             rp = json.load(f)
-        res = par.run_jobs(target, [{'replay': rp['replay']}], 1, timeout=300)
+        res = par.run_jobs(target, [{'replay': rp['replay'], '_env': {'PYTHONHASHSEED': rp['replay'].get('hashseed', 0)}}], 1,
+                           timeout=300)
     else:
         rng = random.Random(check.seed)
         total = int((3000 if check.thorough else 160) * check.scale)
@@ -288,7 +289,12 @@ def main():
             cases.insert(rng.randrange(len(cases)), {'site_seed': rng.randrange(1 << 30), 'opts': hub_opts,
                                                      'delay_seed': rng.randrange(1 << 30), 'n_pages': 3, 'hub_links': n})
         nj = check.jobs * (4 if check.thorough else 1)
-        jobs = [{'cases': cases[i::nj]} for i in range(nj) if cases[i::nj]]
+        # each job runs under its own hash seed: the scraper hands over the links of a page as a set, so their order (which
+        # role of a URL is seen first, which link is stored first) varies with it
+        jobs = []
+        for i in range(nj):
+            if cases[i::nj]:
+                jobs.append({'cases': [dict(c, hashseed=i) for c in cases[i::nj]], '_env': {'PYTHONHASHSEED': i}})
         res = par.run_jobs(target, jobs, check.jobs, timeout=7200 if check.thorough else 900)
     for r in res:
         if '_error' in r:
